@@ -87,6 +87,9 @@ func entTarget(shape int) (interface{}, func() string) {
 	case 4:
 		o := new(struct{})
 		return o, func() string { return "obj" }
+	case 6:
+		a := new([]int64)
+		return a, func() string { return fmt.Sprintf("arr:%v", *a) }
 	}
 	if shape == 5 {
 		p := new(entPage)
@@ -117,6 +120,8 @@ func entWritten(vs Sx) interface{} {
 		return []int64{}
 	case 4:
 		return struct{}{}
+	case 6:
+		return []int64(nil) // a nil slice is a value too: JSON null, which reads back as the nil slice
 	case 5:
 		v := entValueOf(vs)
 		return &entPage{ID: v.I, Link: v.S, Meta: "m", Br: "b " + v.S, Note: "after"}
@@ -178,7 +183,7 @@ func genEnt(r *Rng) Sx {
 		}
 		val := genEntValue(r)
 		if codec == 0 && r.Pct(15) {
-			val = Ls(append(append(Ls{}, sxList(val)...), 1+r.Intn(4))) // a one- or two-byte JSON document
+			val = Ls(append(append(Ls{}, sxList(val)...), []int{1, 2, 3, 4, 6}[r.Intn(5)])) // a one- or two-byte JSON document (6: null)
 			if broken == 1 {
 				// half of such a compressed stream still holds the whole document (only the checksum is cut) and a
 				// streaming decoder legitimately succeeds; the model's all-or-nothing inflate oracle does not cover that
